@@ -252,9 +252,11 @@ func (l *HandlerLog) Snapshot() []string {
 
 // FakeHandler is a harness implementation of gensign.Handler.
 type FakeHandler struct {
-	ID      string
-	Accept  bool
-	Log     *HandlerLog
+	ID     string
+	Accept bool
+	// RejectKind: "" / authn (HandlerAuthN) | disabled | invalid | unknown | untyped | panic-typed
+	RejectKind string
+	Log        *HandlerLog
 	PanicIn string // name | authenticate | generate | csrs | addcerts
 	// Agent, when set, makes Generate create NKeys real agent keys (each with NReqs requests).
 	Agent   agent.Agent
@@ -309,6 +311,18 @@ func (h *FakeHandler) Authenticate(p *csr.ReqParam) error {
 	}
 	if h.Accept {
 		return nil
+	}
+	switch h.RejectKind {
+	case "disabled":
+		return gensign.NewErrorWithMsg(gensign.HandlerDisabled, h.Name(), "verif: handler disabled")
+	case "invalid":
+		return gensign.NewErrorWithMsg(gensign.InvalidParams, h.Name(), "verif: invalid parameters")
+	case "unknown":
+		return gensign.NewErrorWithMsg(gensign.Unknown, h.Name(), "verif: unknown")
+	case "untyped":
+		return errors.New("verif: rejected (untyped error)")
+	case "panic-typed":
+		return gensign.NewErrorWithMsg(gensign.Panic, h.Name(), "verif: rejected with a panic-typed error")
 	}
 	return gensign.NewErrorWithMsg(gensign.HandlerAuthN, h.Name(), "verif: rejected")
 }
